@@ -730,7 +730,7 @@ Definition lllz_eqb := list_eqb llz_eqb.
 
 (* digests: large outputs are compared through a polynomial hash computed on both sides *)
 Definition hash_mask : Z := 2305843009213693951.      (* 2^61 - 1; masking is far cheaper than a division *)
-Definition hash_list (l : list Z) : Z := fold_left (fun h v => Z.land (h * 1000003 + v + 1) hash_mask) l 7.
+Definition hash_list (l : list Z) : Z := fold_left (fun h v => Z.land (1000003 * h + v + 1) hash_mask) l 7.
 Definition hash_ll (ll : list (list Z)) : Z := hash_list (flat_map (fun l => zlen l :: l) ll).
 Definition hash_lll (lll : list (list (list Z))) : Z := hash_list (map hash_ll lll).
 
